@@ -72,6 +72,43 @@ try:
             w = dict(crash_after_commit=k, of=total, scenario="process killed after commit #%d while recording outer(check_valid=shallow) -> middle -> inner; then inner's version bumped" % k,
                      expected="['inner-v2-1']", observed=out2.strip().split("RESULT")[-1].split("COMMITS")[0].strip())
         shutil.rmtree(d, ignore_errors=True)
+    # crash family 2: a child without provenance below the shallow task (its task is only known from the parent's subtree rows)
+    if w is None:
+        CHILD2 = CHILD.replace('namespace="c03r"', 'namespace="c03p"').replace("""@task(namespace="c03p", version="1")
+def middle(x):
+    return inner(x)""", """@task(namespace="c03p", version=ver, prov=False)
+def middle(x):
+    return inner(x + (0 if ver == "1" else 10))""").replace("""@task(namespace="c03p", version=ver)
+def inner(x):
+    return "inner-v%s-%d" % (ver, x)""", """@task(namespace="c03p", version="1")
+def inner(x):
+    return "inner-%d" % x""")
+        script3 = os.path.join(tmp, "child2.py")
+        open(script3, "w").write(CHILD2)
+
+        def run2(phase, dbdir, kill_at):
+            p = subprocess.run(["/venv/bin/python", script3, phase, dbdir, str(kill_at)], capture_output=True, text=True, timeout=300)
+            return p.returncode, p.stdout
+        d0 = os.path.join(tmp, "clean2")
+        os.makedirs(d0)
+        rc, out = run2("1", d0, 0)
+        total2 = int(out.strip().split("COMMITS")[-1]) if "COMMITS" in out else 0
+        if rc != 0 or total2 == 0 or "inner-1" not in out:
+            w = dict(observed="clean run of the no-provenance workflow failed: " + out[-300:])
+        for k in range(1, total2 + 1, stride):
+            if w:
+                break
+            n += 1
+            d = os.path.join(tmp, f"p{k}")
+            os.makedirs(d)
+            run2("1", d, k)
+            rc2, out2 = run2("2", d, 0)
+            if "RESULT" not in out2:
+                w = dict(crash_after_commit=k, of=total2, observed="recovery run failed: " + out2[-300:])
+            elif "inner-11" not in out2:
+                w = dict(crash_after_commit=k, of=total2, scenario="process killed after commit #%d while recording outer(check_valid=shallow) -> middle(prov=False) -> inner; then middle edited to call inner(x + 10)" % k,
+                         expected="['inner-11']", observed=out2.strip().split("RESULT")[-1].split("COMMITS")[0].strip())
+            shutil.rmtree(d, ignore_errors=True)
     # second scenario family (no crash): a final result served by same-execution CSE under a second, shallow parent
     if w is None:
         CSE = r"""
@@ -109,4 +146,4 @@ print("RESULT", s.run(main()) if ver == "1" else s.run(P2(1, "C1-1")))
                      expected="C2-1", observed=p2.stdout.split("RESULT")[-1].strip())
 finally:
     shutil.rmtree(tmp, ignore_errors=True)
-finish(w is not None, witness=w, evaluations=n, distinct=n, bound="process death after each of the database commits of one recording run of a 3-task shallow workflow, followed by an edited recovery run")
+finish(w is not None, witness=w, evaluations=n, distinct=n, bound="process death after each of the database commits of one recording run of a 3-task shallow workflow (and of its variant with a no-provenance child), followed by an edited recovery run")
